@@ -4,6 +4,9 @@ import jax.numpy as jnp
 
 f = gen(lambda: None)
 maps = choice_maps() + [{"a": 9.0}, {"a": {"b": 7.0}}, {"c": {"a": 8.0}, "b": 6.0}]
+# interior nodes whose children agree while the leaves below differ (depth 3 and 4), and empty sub-maps
+maps += [{"z": 1.5, "a": {"b": {"d": 2.5}}}, {"a": {"b": {"c": 3.5}}}, {"a": {"b": {"c": 4.5, "d": 5.5}}}, {"k": {"k": {"a": {"a": 6.5}}}},
+         {"k": {"k": {"a": {"b": 7.5}}}}, {"k": {"k": {"b": 8.5}}}, {}]
 def compat(x, y):
     lx, ly = [p for p, _ in leaves(x)], [p for p, _ in leaves(y)]
     for p in lx:
